@@ -401,6 +401,8 @@ def pw_from_ast(node, env, var):
             return pw_sub(PW.const(0), v)
         if isinstance(node.op, ast.UAdd):
             return v
+        if isinstance(node.op, (ast.Invert, ast.Not)):
+            return pw_sub(PW.const(1), v)           # ~ / not of a 0/1 indicator
         raise AnalysisError("unary operator in a limiter")
     if t is ast.BinOp:
         a = pw_from_ast(node.left, env, var)
@@ -451,6 +453,23 @@ def pw_from_ast(node, env, var):
             return pw_select(args[0], args[1], max)
         if fname == 'sign' and len(args) == 1:
             return pw_sign(args[0])
+        if fname == 'where' and len(args) == 3:
+            c = args[0]                                 # 0/1 indicator
+            return pw_add(pw_mul(c, args[1]), pw_mul(pw_sub(PW.const(1), c), args[2]))
+        if fname in ('logical_and',) and len(args) == 2:
+            return pw_mul(args[0], args[1])
+        if fname in ('logical_or',) and len(args) == 2:
+            return pw_sub(PW.const(1), pw_mul(pw_sub(PW.const(1), args[0]), pw_sub(PW.const(1), args[1])))
+        if fname in ('logical_not',) and len(args) == 1:
+            return pw_sub(PW.const(1), args[0])
+        if fname == 'isclose' and len(args) >= 2:
+            # |a - b| <= atol + rtol*|b|  (numpy's definition; defaults rtol=1e-05, atol=1e-08)
+            kw = {k.arg: pw_from_ast(k.value, env, var) for k in node.keywords}
+            rtol = kw.get('rtol', args[2] if len(args) > 2 else PW.const(Fraction(1, 100000)))
+            atol = kw.get('atol', args[3] if len(args) > 3 else PW.const(Fraction(1, 100000000)))
+            return pw_compare(pw_abs(pw_sub(args[0], args[1])), pw_add(atol, pw_mul(rtol, pw_abs(args[1]))), '<=')
+        if fname in ('float64', 'asarray', 'array', 'py:float') and len(args) == 1:
+            return args[0]
         raise AnalysisError(f"call {ast.unparse(node.func)} in a limiter formula is not modelled")
     raise AnalysisError(f"{t.__name__} in a limiter formula")
 
@@ -472,3 +491,35 @@ def _eq_const(a: PW, c, op):
     if op == '!=':
         return pw_sub(PW.const(1), r)
     return r
+
+
+# ----------------------------------------------------------------------------------------------
+# straight-line function bodies: inline the local assignments into the returned expression
+# ----------------------------------------------------------------------------------------------
+class _Subst(ast.NodeTransformer):
+    def __init__(self, env):
+        self.env = env
+
+    def visit_Name(self, node):
+        if isinstance(node.ctx, ast.Load) and node.id in self.env:
+            import copy
+            return copy.deepcopy(self.env[node.id])
+        return node
+
+
+def inlined_return(fnode):
+    """the expression a straight-line function returns, with its local single-name assignments substituted (so that
+    `t = np.isclose(x, 0.0); return np.where(t, e, x)` and the one-line form are the same tree).  Anything but a docstring,
+    simple `name = expr` assignments and one final `return expr` is an AnalysisError."""
+    env = {}
+    body = list(fnode.body)
+    for k, st in enumerate(body):
+        if isinstance(st, ast.Expr) and isinstance(st.value, ast.Constant) and isinstance(st.value.value, str):
+            continue
+        if isinstance(st, ast.Assign) and len(st.targets) == 1 and isinstance(st.targets[0], ast.Name):
+            env[st.targets[0].id] = _Subst(env).visit(__import__('copy').deepcopy(st.value))
+            continue
+        if isinstance(st, ast.Return) and st.value is not None and k == len(body) - 1:
+            return ast.fix_missing_locations(_Subst(env).visit(__import__('copy').deepcopy(st.value)))
+        raise AnalysisError(f"{fnode.name}: line {st.lineno}: not a straight-line body (assignments + one return)")
+    raise AnalysisError(f"{fnode.name}: no return")
